@@ -57,6 +57,14 @@ def gen(rng, thorough):
                        ("second_daemon",)]
         h["id"] = "c02-stale-%d" % k
         hs.append(h)
+    # injectors whose own 24-hour timer fires before each of their calls (SIGALRM: they exit at once; what they leave is a
+    # documented state - fully queued, or a leftover that is collected later)
+    for k in range(2, 18):
+        idx += 1
+        h = base(idx, 2, rng)
+        h["script"] = [("inject_kill", 0, k, 14), ("inject", 1), ("answer", "fifo"), ("advance", 130000), ("advance", 76431), ("advance", 76431)]
+        h["id"] = "c02-alrm-%d" % k
+        hs.append(h)
     # injectors that abort (envelope cut short) and whose clean-up meets a failing call (each of their calls in turn): what they
     # leave behind is still a documented state, and is collected later
     for k in range(6, 16):
